@@ -13,6 +13,8 @@ CONSTANTS
   MaxFaults = 1
   SubsInit = {FALSE}
   MaySubscribe = FALSE
+  RestoreReqs = {2}
+  Loose = FALSE
   Guarded = TRUE
 SYMMETRY Sym
 INVARIANT AtMostOneLink
